@@ -156,4 +156,12 @@ TEXTS = {
                     "data base and the results are compared (exactly for counts, 1e-10 otherwise, conditioning-gated for solves)."),
         level_note=("Trusted: the construction of the reduced Db in the harness, rapidcheck. Single-variable undefined values are judged by C01; crash regions of "
                     "recorded findings are not generated.")),
+    "C04": dict(
+        engine="rapidcheck",
+        technique="property-based differential testing (rapidcheck): each accelerated path vs its plain counterpart on generated inputs (optimised covariance matrices, unique vs wide moving neighbourhood, xvalid shortcut vs leave-one-out, ball tree vs exhaustive search, 1-point block vs point kriging, collocated vs added datum, KrigingCalcul vs kriging)",
+        design_ref="DESIGN.md §5 C04",
+        level_text=("Exploration: ~59 000 (quick) to 2.8 million (thorough) generated cases over 15 sub-properties; the two code paths of each pair must agree within "
+                    "round-off (conditioning-scaled where a system is solved). Counter-example search with shrinking."),
+        level_note=("Trusted: nothing beyond the plain path of each pair (itself tied to independent oracles by C01, C03, C06), the harness's tolerance model and rapidcheck. "
+                    "n<=40 data (500 for migrate, 90 for ball search).")),
 }
